@@ -13,7 +13,7 @@ import sys
 sys.path.insert(0, os.path.dirname(os.path.dirname(os.path.abspath(__file__))))
 import ais  # noqa: E402
 
-GEN = []
+GEN = ['GenConst.v']
 RULE = ('a case is (byte stream, segmentation into recv() results).  Streams: real AIS sentences (single and multi-part, '
         'LF and CRLF mixed, with an occasional foreign NMEA line and a line too short for the line filter) and short '
         'abstract streams over {a,b,CR,LF}.  Segmentations: whole stream, one line per chunk, 1-byte chunks, fixed sizes, '
